@@ -17,6 +17,7 @@ import (
 )
 
 type Exec struct {
+	cutParts    map[string][]string
 	eng         *Engine
 	vc          *VC
 	top         *ssa.Function
